@@ -231,6 +231,17 @@ static int check_addr8(AsmContext *asm_context, struct _operand *operand)
   return 0;
 }
 
+static int check_addr16(AsmContext *asm_context, struct _operand *operand)
+{
+  if (operand->value < 0 || operand->value > 0xffff)
+  {
+    print_error_range(asm_context, "Address", 0, 0xffff);
+    return -1;
+  }
+
+  return 0;
+}
+
 static int check_offset8(
   AsmContext *asm_context,
   struct _operand *operand,
@@ -983,7 +994,7 @@ printf("-- %d %d %d\n", operands[n].type, operands[n].value, operands[n].offset)
               operands[0].value == REG_A &&
               operands[1].type == OPERAND_INDEX_NUMBER)
           {
-            if (check_addr8(asm_context,&operands[0]) == -1) { return -1; }
+            if (check_addr8(asm_context,&operands[1]) == -1) { return -1; }
             add_bin8(asm_context, table_z80[n].opcode, IS_OPCODE);
             add_bin8(asm_context, operands[1].value, IS_OPCODE);
             return 2;
@@ -1256,6 +1267,7 @@ printf("-- %d %d %d\n", operands[n].type, operands[n].value, operands[n].offset)
               operands[0].value == REG_A &&
               operands[1].type == OPERAND_INDEX_NUMBER)
           {
+            if (check_addr16(asm_context, &operands[1]) == -1) { return -1; }
             add_bin8(asm_context, table_z80[n].opcode, IS_OPCODE);
             add_bin8(asm_context, operands[1].value & 0xff, IS_OPCODE);
             add_bin8(asm_context, operands[1].value >> 8, IS_OPCODE);
@@ -1296,6 +1308,7 @@ printf("-- %d %d %d\n", operands[n].type, operands[n].value, operands[n].offset)
               operands[1].type == OPERAND_REG8 &&
               operands[1].value == REG_A)
           {
+            if (check_addr16(asm_context, &operands[0]) == -1) { return -1; }
             add_bin8(asm_context, table_z80[n].opcode, IS_OPCODE);
             add_bin8(asm_context, operands[0].value & 0xff, IS_OPCODE);
             add_bin8(asm_context, operands[0].value >> 8, IS_OPCODE);
@@ -1348,6 +1361,7 @@ printf("-- %d %d %d\n", operands[n].type, operands[n].value, operands[n].offset)
               operands[0].type == OPERAND_REG16_XY &&
               operands[1].type == OPERAND_NUMBER)
           {
+            if (check_addr16(asm_context, &operands[1]) == -1) { return -1; }
             add_bin8(asm_context, (table_z80[n].opcode >> 8) | (operands[0].value << 5), IS_OPCODE);
             add_bin8(asm_context, table_z80[n].opcode & 0xff, IS_OPCODE);
             add_bin8(asm_context, operands[1].value & 0xff, IS_OPCODE);
@@ -1362,6 +1376,7 @@ printf("-- %d %d %d\n", operands[n].type, operands[n].value, operands[n].offset)
               operands[0].type == OPERAND_REG16 &&
               operands[1].type == OPERAND_INDEX_NUMBER)
           {
+            if (check_addr16(asm_context, &operands[1]) == -1) { return -1; }
             add_bin8(asm_context, table_z80[n].opcode >> 8, IS_OPCODE);
             add_bin8(asm_context, (table_z80[n].opcode & 0xff) | (operands[0].value << 4), IS_OPCODE);
             add_bin8(asm_context, operands[1].value & 0xff, IS_OPCODE);
@@ -1377,6 +1392,7 @@ printf("-- %d %d %d\n", operands[n].type, operands[n].value, operands[n].offset)
               operands[0].value == REG_HL &&
               operands[1].type == OPERAND_INDEX_NUMBER)
           {
+            if (check_addr16(asm_context, &operands[1]) == -1) { return -1; }
             add_bin8(asm_context, table_z80[n].opcode, IS_OPCODE);
             add_bin8(asm_context, operands[1].value & 0xff, IS_OPCODE);
             add_bin8(asm_context, operands[1].value >> 8, IS_OPCODE);
@@ -1390,6 +1406,7 @@ printf("-- %d %d %d\n", operands[n].type, operands[n].value, operands[n].offset)
               operands[0].type == OPERAND_REG16_XY &&
               operands[1].type == OPERAND_INDEX_NUMBER)
           {
+            if (check_addr16(asm_context, &operands[1]) == -1) { return -1; }
             add_bin8(asm_context, (table_z80[n].opcode >> 8) | (operands[0].value << 5), IS_OPCODE);
             add_bin8(asm_context, table_z80[n].opcode & 0xff, IS_OPCODE);
             add_bin8(asm_context, operands[1].value & 0xff, IS_OPCODE);
@@ -1404,6 +1421,7 @@ printf("-- %d %d %d\n", operands[n].type, operands[n].value, operands[n].offset)
               operands[0].type == OPERAND_INDEX_NUMBER &&
               operands[1].type == OPERAND_REG16)
           {
+            if (check_addr16(asm_context, &operands[0]) == -1) { return -1; }
             add_bin8(asm_context, table_z80[n].opcode >> 8, IS_OPCODE);
             add_bin8(asm_context, (table_z80[n].opcode & 0xff) | (operands[1].value << 4), IS_OPCODE);
             add_bin8(asm_context, operands[0].value & 0xff, IS_OPCODE);
@@ -1419,6 +1437,7 @@ printf("-- %d %d %d\n", operands[n].type, operands[n].value, operands[n].offset)
               operands[1].type == OPERAND_REG16 &&
               operands[1].value == REG_HL)
           {
+            if (check_addr16(asm_context, &operands[0]) == -1) { return -1; }
             add_bin8(asm_context, table_z80[n].opcode, IS_OPCODE);
             add_bin8(asm_context, operands[0].value & 0xff, IS_OPCODE);
             add_bin8(asm_context, operands[0].value >> 8, IS_OPCODE);
@@ -1432,6 +1451,7 @@ printf("-- %d %d %d\n", operands[n].type, operands[n].value, operands[n].offset)
               operands[0].type == OPERAND_INDEX_NUMBER &&
               operands[1].type == OPERAND_REG16_XY)
           {
+            if (check_addr16(asm_context, &operands[0]) == -1) { return -1; }
             add_bin8(asm_context, (table_z80[n].opcode >> 8) | (operands[1].value << 5), IS_OPCODE);
             add_bin8(asm_context, table_z80[n].opcode & 0xff, IS_OPCODE);
             add_bin8(asm_context, operands[0].value & 0xff, IS_OPCODE);
